@@ -1032,9 +1032,9 @@ pub fn cfg_sites(srcs: &[Src]) -> R<CfgSites> {
     if out.intern_glue.is_empty() {
         return unsup("vm.rs", "Vm::new_gc_obj_string", "not found");
     }
-    for want in GLUE_FNS {
-        if !out.glue_text.iter().any(|(n, _)| n == &want.replace("::", "_")) {
-            return unsup("vm.rs", want, "not found");
+    for (file, want) in GLUE_FNS {
+        if out.glue_text.iter().filter(|(n, _)| n == &want.replace("::", "_")).count() != 1 {
+            return unsup(file, want, "not found exactly once");
         }
     }
     out.glue_text.sort();
@@ -1042,8 +1042,38 @@ pub fn cfg_sites(srcs: &[Src]) -> R<CfgSites> {
 }
 
 /// Statements of `Vm::new_gc_obj_string` and the call sites of `ObjString::new` (items under `cfg(test)` / `cfg(feature = "verif_hooks")` skipped).
-/// Functions of vm.rs that the hand models of modules (C14) and of interpreter re-use (C15) transcribe and that are not translated.
-const GLUE_FNS: &[&str] = &["Vm::start_import_impl", "Vm::finish_import_impl", "Vm::module", "Vm::reset", "Vm::reset_stack", "Vm::execute"];
+/// Functions that hand models transcribe and that are not translated: (file, name). Modules (C14), re-use (C15), captured variables (C06),
+/// the class table and the property / invoke / super paths (C07), the hash map natives (C12).
+const GLUE_FNS: &[(&str, &str)] = &[
+    ("vm.rs", "Vm::start_import_impl"), ("vm.rs", "Vm::finish_import_impl"), ("vm.rs", "Vm::module"),
+    ("vm.rs", "Vm::reset"), ("vm.rs", "Vm::reset_stack"), ("vm.rs", "Vm::execute"),
+    ("vm.rs", "Vm::capture_upvalue"), ("object.rs", "ObjFiber::close_upvalues"), ("object.rs", "ObjFiber::close_upvalues_for_frame"),
+    ("vm.rs", "Vm::declare_class_impl"), ("vm.rs", "Vm::define_class_impl"), ("vm.rs", "Vm::inherit_impl"), ("vm.rs", "Vm::static_method_impl"),
+    ("vm.rs", "Vm::define_method"), ("vm.rs", "Vm::bind_method"), ("vm.rs", "Vm::get_property_impl"), ("vm.rs", "Vm::set_property_impl"),
+    ("vm.rs", "Vm::get_super_impl"), ("vm.rs", "Vm::invoke_impl"), ("vm.rs", "Vm::super_invoke_impl"), ("vm.rs", "Vm::invoke_from_class"), ("vm.rs", "Vm::invoke"),
+    ("vm.rs", "Vm::build_hash_map_impl"), ("vm.rs", "Vm::build_hash_map"),
+    ("core.rs", "hash_map_has_key"), ("core.rs", "hash_map_get"), ("core.rs", "hash_map_insert"), ("core.rs", "hash_map_remove"), ("core.rs", "hash_map_clear"),
+    ("core.rs", "hash_map_len"), ("core.rs", "hash_map_keys"), ("core.rs", "hash_map_values"), ("core.rs", "hash_map_items"), ("core.rs", "validate_hash_map_key"),
+];
+
+/// Removes every statement under `cfg(feature = "verif_hooks")`, at any depth.
+struct StripHooks;
+impl syn::visit_mut::VisitMut for StripHooks {
+    fn visit_block_mut(&mut self, b: &mut syn::Block) {
+        b.stmts.retain(|st| !quote::ToTokens::to_token_stream(st).to_string().starts_with("# [cfg (feature = \"verif_hooks\")]"));
+        syn::visit_mut::visit_block_mut(self, b);
+    }
+}
+
+fn glue_lines(sig: &syn::Signature, block: &syn::Block) -> Vec<String> {
+    let mut b = block.clone();
+    syn::visit_mut::VisitMut::visit_block_mut(&mut StripHooks, &mut b);
+    let mut v = vec![quote::ToTokens::to_token_stream(sig).to_string()];
+    for st in &b.stmts {
+        v.push(quote::ToTokens::to_token_stream(st).to_string());
+    }
+    v
+}
 
 struct GlueVisitor {
     texts: Vec<(String, Vec<String>)>,
@@ -1074,6 +1104,9 @@ impl<'ast> syn::visit::Visit<'ast> for GlueVisitor {
         if hook_or_test(&f.attrs) {
             return;
         }
+        if self.fns.is_empty() && GLUE_FNS.contains(&(self.file.as_str(), f.sig.ident.to_string().as_str())) {
+            self.texts.push((f.sig.ident.to_string(), glue_lines(&f.sig, &f.block)));
+        }
         self.fns.push(f.sig.ident.to_string());
         syn::visit::visit_item_fn(self, f);
         self.fns.pop();
@@ -1099,15 +1132,8 @@ impl<'ast> syn::visit::Visit<'ast> for GlueVisitor {
                 self.glue.push(quote::ToTokens::to_token_stream(st).to_string());
             }
         }
-        if self.file == "vm.rs" && GLUE_FNS.contains(&name.as_str()) {
-            let mut v = vec![quote::ToTokens::to_token_stream(&f.sig).to_string()];
-            for st in &f.block.stmts {
-                let t = quote::ToTokens::to_token_stream(st).to_string();
-                if !t.starts_with("# [cfg (feature = \"verif_hooks\")]") {
-                    v.push(t);
-                }
-            }
-            self.texts.push((name.replace("::", "_"), v));
+        if GLUE_FNS.contains(&(self.file.as_str(), name.as_str())) {
+            self.texts.push((name.replace("::", "_"), glue_lines(&f.sig, &f.block)));
         }
         self.fns.push(name);
         syn::visit::visit_impl_item_fn(self, f);
@@ -1233,7 +1259,7 @@ impl CfgSites {
         l.def_list("internGlue", "List String", &self.intern_glue.iter().map(|m| lean_str(m)).collect::<Vec<_>>());
         for (n, v) in &self.glue_text {
             l.comment("");
-            l.comment(&format!("`{}` of vm.rs as written: signature, then each statement (statements under cfg(verif_hooks) stripped).", n.replacen('_', "::", 1)));
+            l.comment(&format!("`{}` as written: signature, then each statement (statements under cfg(verif_hooks) stripped at every depth).", n));
             l.def_list(&format!("glue_{}", n), "List String", &v.iter().map(|m| lean_str(m)).collect::<Vec<_>>());
         }
         l.comment("");
